@@ -169,6 +169,9 @@ def _parse_genes(chrom: str, db: FeatureDB) -> List[Dict]:
             if gene_id:
                 break
 
+        # the writer's placeholder for "no biotype" is not a provided biotype
+        if gene_biotype == UNKNOWN_BIOTYPE:
+            gene_biotype = None
         if Biotype.has_name(gene_biotype):
             gene_biotype = Biotype[gene_biotype]
         elif gene_biotype:
